@@ -3,7 +3,7 @@ import json, os, subprocess, sys
 from pcv import core, setbuild, capio
 
 P = "PcVerif.Props.C10."
-THEOREMS = [P + t for t in ["reader_flags_pinned", "read_independent_of_history", "fresh_results_isolated", "languages_in_first_appearance_order", "no_process_wide_memo", "constructed_objects_distinct"]]
+THEOREMS = [P + t for t in ["reader_flags_pinned", "read_independent_of_history", "fresh_results_isolated", "languages_in_first_appearance_order", "no_process_wide_memo", "constructed_objects_distinct", "no_shared_default_objects"]]
 
 
 def make(tier, seed):
@@ -117,6 +117,15 @@ def explore(chk):
             docs += [("webvtt", "WEBVTT\n\n00:01.000 --> 00:02.000 line:10% align:left\none\n\n00:03.000 --> 00:04.000 line:10% align:left\ntwo\n\n00:05.000 --> 00:06.000\nthree\n"),
                      ("webvtt", "WEBVTT\n\n00:01.000 --> 00:02.000 line:10% align:left\nother\n")]
             ops += [("read", len(docs) - 2, False), ("edit", "layout_settings", "last"), ("read", len(docs) - 2, False), ("read", len(docs) - 1, True)]
+            # the style dict of one caption edited in place, for every format (a style dict shared between captions, sets or
+            # reads would show in the next read)
+            fmt_ = ["scc", "srt", "webvtt", "microdvd", "sami", "dfxp"][(h // 5) % 6]
+            if fmt_ == "scc":
+                docs += [("scc", "Scenarist_SCC V1.0\n\n00:00:01:00\t94ae 9420 9470 c1c2 942f\n\n00:00:03:00\t942c\n\n00:00:04:00\t94ae 9420 9452 c8e5 942f\n\n00:00:06:00\t942c\n"),
+                         ("scc", "Scenarist_SCC V1.0\n\n00:00:01:00\t94ae 9420 9470 c8e5 942f\n\n00:00:03:00\t942c\n")]
+            two_ = [i_ for i_, d_ in enumerate(docs) if d_[0] == fmt_][-2:]
+            if two_:
+                ops += [("read", two_[0], False), ("edit", "caption_style", "last"), ("read", two_[-1], False), ("read", two_[0], True)]
         if h % 5 == 2:
             # two SCC documents with italics; then the style node of one result is edited in place
             def scc(word_a, word_b):
